@@ -72,6 +72,14 @@ structure PP where
   errors : Nat := 0
   deriving DecidableEq, Repr
 
+/-- which variant of the expansion code is modelled -/
+structure XCfg where
+  /-- __VA_ARGS__ keeps the separating commas (F61 repaired) -/
+  vaCommas : Bool
+  /-- `defined X` without parentheses is handled in processIdentifier (F64 repaired) -/
+  definedBare : Bool
+  deriving DecidableEq, Repr
+
 inductive Res (α : Type) where
   | ok (a : α)
   | outOfFuel
@@ -120,9 +128,23 @@ def subst (vaCommas : Bool) (m : Macro) (args : List (List Tok)) : List Tok :=
           | a :: r => a ++ r.flatMap (fun x => commaTok :: x)
         else rest.flatten
 
+/-- the next raw input token is an identifier -/
+def peekIsIdent (s : PP) : Bool :=
+  match s.input with
+  | op :: _ => op.tok.isIdent
+  | [] => false
+
+/-- `defined X` (repaired, F64): consume the operand, output `true` / `false`, clear the operand's end list -/
+def definedBareStep (s : PP) : PP :=
+  match s.input with
+  | op :: rest =>
+    (({ s with input := rest }).pushOut
+      ⟨.num, if (lookup s.table op.tok.text).isSome then "true" else "false"⟩).clear op.ends
+  | [] => s
+
 mutual
   /-- `pp >> token` (withOutputCache::setNext): none = nothing left -/
-  def next (vc : Bool) : Nat → PP → Res (Option Tok × PP)
+  def next (vc : XCfg) : Nat → PP → Res (Option Tok × PP)
     | 0, _ => .outOfFuel
     | f + 1, s =>
       match fill vc f s with
@@ -134,7 +156,7 @@ mutual
       | .trap => .trap
 
   /-- withOutputCache::isEmpty: `while (!inputIsEmpty() && outputCache.empty()) fetchNext();` -/
-  def fill (vc : Bool) : Nat → PP → Res PP
+  def fill (vc : XCfg) : Nat → PP → Res PP
     | 0, _ => .outOfFuel
     | f + 1, s =>
       if !s.output.isEmpty then .ok s
@@ -147,7 +169,7 @@ mutual
           | .trap => .trap
 
   /-- preprocessor_t::processToken (status = reading) -/
-  def processToken (vc : Bool) : Nat → ITok → PP → Res PP
+  def processToken (vc : XCfg) : Nat → ITok → PP → Res PP
     | 0, _, _ => .outOfFuel
     | f + 1, t, s =>
       if t.tok.isIdent then
@@ -159,13 +181,16 @@ mutual
 
   /-- preprocessor_t::processIdentifier; also returns what is left of the token's expandedMacroEnd
       entry (expandMacro moves it to the end of the expansion) -/
-  def processIdentifier (vc : Bool) : Nat → ITok → PP → Res (PP × List String)
+  def processIdentifier (vc : XCfg) : Nat → ITok → PP → Res (PP × List String)
     | 0, _, _ => .outOfFuel
     | f + 1, t, s =>
       match (if s.expanding then lookup s.table t.tok.text else none) with
       | none => .ok (s.pushOut t.tok, t.ends)
       | some m =>
         if s.disabled.contains m.name then .ok (s.pushOut t.tok, t.ends)
+        else if vc.definedBare && m.special && peekIsIdent s then
+          -- `defined X`: the operand is fetched with getSourceToken(), i.e. it is not macro-expanded
+          .ok (definedBareStep s, t.ends)
         else if !m.isFn then expandMacro vc f t m s
         else if s.input.isEmpty then .ok (s.pushOut t.tok, t.ends)
         else
@@ -178,7 +203,7 @@ mutual
           | .trap => .trap
 
   /-- preprocessor_t::expandMacro -/
-  def expandMacro (vc : Bool) : Nat → ITok → Macro → PP → Res (PP × List String)
+  def expandMacro (vc : XCfg) : Nat → ITok → Macro → PP → Res (PP × List String)
     | 0, _, _, _ => .outOfFuel
     | f + 1, t, m, s =>
       match macroExpand vc f m s with
@@ -194,7 +219,7 @@ mutual
       | .trap => .trap
 
   /-- macro_t::expand / definedMacro::expand: the tokens of the expansion ([] after an argument error) -/
-  def macroExpand (vc : Bool) : Nat → Macro → PP → Res (List Tok × PP)
+  def macroExpand (vc : XCfg) : Nat → Macro → PP → Res (List Tok × PP)
     | 0, _, _ => .outOfFuel
     | f + 1, m, s =>
       if m.special then
@@ -216,12 +241,12 @@ mutual
       else
         match loadArgs vc f m s with
         | .ok (none, s') => .ok ([], s')
-        | .ok (some args, s') => .ok (subst vc m args, s')
+        | .ok (some args, s') => .ok (subst vc.vaCommas m args, s')
         | .outOfFuel => .outOfFuel
         | .trap => .trap
 
   /-- macro_t::loadArgs followed by checkArgs; none = an error was reported -/
-  def loadArgs (vc : Bool) : Nat → Macro → PP → Res (Option (List (List Tok)) × PP)
+  def loadArgs (vc : XCfg) : Nat → Macro → PP → Res (Option (List (List Tok)) × PP)
     | 0, _, _ => .outOfFuel
     | f + 1, m, s =>
       if !m.isFn then .ok (some [], s)
@@ -237,7 +262,7 @@ mutual
         | .trap => .trap
 
   /-- the first loop of loadArgs: pull tokens up to the closing parenthesis -/
-  def collect (vc : Bool) : Nat → Nat → List Tok → PP → Res (List Tok × PP)
+  def collect (vc : XCfg) : Nat → Nat → List Tok → PP → Res (List Tok × PP)
     | 0, _, _, _ => .outOfFuel
     | f + 1, pc, acc, s =>
       match next vc f s with
@@ -252,7 +277,7 @@ mutual
 end
 
 /-- the consumer of the preprocessor: `while (!stream.isEmpty()) stream >> token` -/
-def drain (vc : Bool) : Nat → PP → List Tok → Res (List Tok × PP)
+def drain (vc : XCfg) : Nat → PP → List Tok → Res (List Tok × PP)
   | 0, _, _ => .outOfFuel
   | f + 1, s, acc =>
     match next vc f s with
@@ -264,7 +289,7 @@ def drain (vc : Bool) : Nat → PP → List Tok → Res (List Tok × PP)
 def nlTok : Tok := ⟨.nl, "\\n"⟩
 
 /-- preprocess one source line (its tokens followed by the newline token) -/
-def expandLine (vc : Bool) (fuel : Nat) (s : PP) (toks : List Tok) : Res (List Tok × PP) :=
+def expandLine (vc : XCfg) (fuel : Nat) (s : PP) (toks : List Tok) : Res (List Tok × PP) :=
   drain vc fuel { s with input := (toks ++ [nlTok]).map (fun t => (⟨t, []⟩ : ITok)) } []
 
 /-! ### reference: hide sets -/
